@@ -336,6 +336,9 @@ pub fn streams() -> Vec<Stream> {
     }
     v.push(mk("two-big-bodies", vec![body(1, 4088), body(1, 4089), heartbeat(), body(2, 5000), malformed("bad-frame-end"), heartbeat()], true));
     v.push(mk("300-heartbeats", (0..300).map(|_| heartbeat()).collect(), true));
+    // a burst far beyond the read quantum and beyond 64 KiB that arrives in one piece (a consumer
+    // attached to a backlog): 48 deliveries of 4000 bytes
+    v.push(mk("burst-190k", { let mut x: Vec<Item> = Vec::new(); for _ in 0..48 { x.push(deliver(1)); x.push(header(1, 4000, false)); x.push(body(1, 4000)); } x.push(heartbeat()); x }, false));
     v.push(mk("heartbeats-then-body", { let mut x: Vec<Item> = (0..511).map(|_| heartbeat()).collect(); x.push(body(1, 9000)); x.push(heartbeat()); x }, false));
     v
 }
@@ -464,7 +467,7 @@ pub fn run(args: &Args) {
     for (i, s) in all.iter().enumerate() {
         let len = s.bytes().len();
         let _ = len;
-        let mc = if thorough { 3 } else { max_cuts };
+        let mc = if s.name.starts_with("burst") { 1 } else if thorough { 3 } else { max_cuts };
         work.push((i, Stream { name: s.name.clone(), items: s.items.clone(), eof: s.eof, truncate_at: None }, mc, 300));
     }
     let base = &all[0];
